@@ -120,6 +120,15 @@ class PyBackend(object):
         l = self.plist(ws)
         return self.stabilizer.StabilizerState(gs=l.gs, ps=l.ps, r=r)
 
+    def freeze(self, L):
+        """the user's arrays are read-only (memory-mapped files, buffers, broadcast views ...): an operation that only reads
+        an operand must not try to write into it"""
+        for f in ("gs", "ps", "g"):
+            a = getattr(L, f, None)
+            if isinstance(a, numpy.ndarray):
+                a.setflags(write=False)
+        return L
+
     def retype(self, L, gdt, pdt):
         """same content, other element types of the user's arrays (uint8 parity-check bits, int32 phases, float64 ...)"""
         L.gs = L.gs.astype(getattr(numpy, gdt))
